@@ -33,6 +33,16 @@ type fnCtx struct {
 	nloop   int
 	inLoop  int
 	helpers []string
+
+	// mutable []byte buffers (buf.go)
+	byval     map[types.Object]bool         // []byte parameters passed by value: read-only, represented as bytes
+	outParam  map[types.Object]bool         // *[]byte parameters: the callee returns the new slice
+	outs      []types.Object                // the same, in declaration order (appended to the results)
+	aliasOf   map[types.Object]types.Object // b -> buf for `b := *buf`
+	stale     map[types.Object]bool         // alias variables whose Coq value no longer reflects the Go slice (flow-sensitive)
+	noReturn  int                           // > 0 while translating the body of a nested (state-returning) loop
+	declRes   int                           // number of declared results (f.res = declared results ++ out parameters)
+	file      string
 }
 
 func (f *fnCtx) pathParam(name string, t ctype) {
@@ -83,7 +93,7 @@ func (f *fnCtx) binders(sc scope) string {
 		fmt.Fprintf(&sb, " (%s : %s)", pp.name, pp.t)
 	}
 	for _, o := range sc {
-		fmt.Fprintf(&sb, " (%s : %s)", f.nameOf(o), f.ctypeOf(o.Type(), nil))
+		fmt.Fprintf(&sb, " (%s : %s)", f.nameOf(o), f.ctypeOfObj(o, nil))
 	}
 	return sb.String()
 }
@@ -124,7 +134,7 @@ func (f *fnCtx) impureNode(n ast.Node) bool {
 			if id, ok := x.Fun.(*ast.Ident); ok {
 				switch o := f.p.info.Uses[id].(type) {
 				case *types.Builtin:
-					if o.Name() == "panic" {
+					if o.Name() == "panic" || o.Name() == "make" || o.Name() == "copy" {
 						imp = true
 					}
 				case *types.Func:
@@ -141,7 +151,9 @@ func (f *fnCtx) impureNode(n ast.Node) bool {
 
 func newCtx(out *output, p *pkgInfo, d *directive) *fnCtx {
 	return &fnCtx{p: p, d: d, out: out, gen: "gen_" + d.Name, names: map[types.Object]string{}, taken: map[string]bool{},
-		local: map[types.Object]bool{}, roots: map[types.Object]string{}, pathIx: map[string]bool{}}
+		local: map[types.Object]bool{}, roots: map[types.Object]string{}, pathIx: map[string]bool{},
+		byval: map[types.Object]bool{}, outParam: map[types.Object]bool{}, aliasOf: map[types.Object]types.Object{},
+		stale: map[types.Object]bool{}, file: d.File}
 }
 
 // declare registers the parameters (and receiver) of fd.
@@ -160,7 +172,17 @@ func (f *fnCtx) declare(fd *ast.FuncDecl, only map[types.Object]bool) {
 			if only != nil && !only[o] {
 				continue
 			}
-			if _, ok := f.tryCtype(o.Type()); ok {
+			if isByteSlicePtr(o.Type()) && fd.Recv == nil {
+				// buf *[]byte: the function is translated as RETURNING the new slice (after its declared results)
+				f.outParam[o] = true
+				f.outs = append(f.outs, o)
+				f.local[o] = true
+				f.nameOf(o)
+				f.params = append(f.params, o)
+			} else if _, ok := f.tryCtype(o.Type()); ok {
+				if isByteSlice(o.Type()) {
+					f.byval[o] = true
+				}
 				f.local[o] = true
 				f.nameOf(o)
 				f.params = append(f.params, o)
@@ -193,10 +215,14 @@ func emitFunc(out *output, p *pkgInfo, d *directive) {
 			}
 			f.paths = paths
 		}
-		if fd.Type.Results == nil || len(fd.Type.Results.List) == 0 {
+		if (fd.Type.Results == nil || len(fd.Type.Results.List) == 0) && len(f.outs) == 0 {
 			die("%s: function without result", d.Name)
 		}
-		for _, fl := range fd.Type.Results.List {
+		var resList []*ast.Field
+		if fd.Type.Results != nil {
+			resList = fd.Type.Results.List
+		}
+		for _, fl := range resList {
 			n := len(fl.Names)
 			if n == 0 {
 				n = 1
@@ -210,14 +236,22 @@ func emitFunc(out *output, p *pkgInfo, d *directive) {
 				f.named = append(f.named, o)
 			}
 		}
-		f.pure = !f.impureNode(fd.Body)
+		f.declRes = len(f.res)
+		for range f.outs {
+			f.res = append(f.res, ctype{k: tBuf})
+		}
+		f.pure = !f.impureNode(fd.Body) && len(f.outs) == 0
 		sc := scope(f.params)
 		pre := ""
 		for _, o := range f.named {
-			pre += "let " + f.nameOf(o) + " : " + f.ctypeOf(o.Type(), nil).String() + " := " + f.ctypeOf(o.Type(), nil).zero() + " in\n"
+			pre += "let " + f.nameOf(o) + " : " + f.ctypeOfObj(o, nil).String() + " := " + f.ctypeOfObj(o, nil).zero() + " in\n"
 			sc = sc.with(o)
 		}
 		k := kont{normal: func() string {
+			if f.declRes == 0 && len(f.outs) > 0 {
+				// a function without declared results returns at the end of its body: the out parameters
+				return f.returnOuts(nil)
+			}
 			die("%s: %s: control may reach the end of the function", p.pos(fd.Body), d.Name)
 			return ""
 		}}
@@ -230,8 +264,17 @@ func emitFunc(out *output, p *pkgInfo, d *directive) {
 	for _, h := range f.helpers {
 		out.sb.WriteString(h + "\n")
 	}
-	fmt.Fprintf(&out.sb, "Definition %s%s : %s :=\n%s.\n\n", f.gen, f.binders(scope(f.params)), f.resType(), indent(text, 2))
-	out.funcs[p.name+"."+d.Func] = &sig{coq: f.gen, pure: f.pure, res: f.res, recvless: recvless}
+	fmt.Fprintf(out.sb, "Definition %s%s : %s :=\n%s.\n\n", f.gen, f.binders(scope(f.params)), f.resType(), indent(text, 2))
+	sg := &sig{coq: f.gen, pure: f.pure, res: f.res, recvless: recvless, file: d.File, declRes: f.declRes}
+	for i, o := range f.params {
+		if f.outParam[o] {
+			sg.outIdx = append(sg.outIdx, i)
+		}
+	}
+	if len(sg.outIdx) > 0 && len(f.params) != fd.Type.Params.NumFields() {
+		die("%s: out parameters together with flattened struct parameters", d.Name)
+	}
+	out.funcs[p.name+"."+d.Func] = sg
 }
 
 // emitGuard extracts the condition of the N-th if statement (source order) of a function
@@ -287,7 +330,7 @@ func emitGuard(out *output, p *pkgInfo, d *directive) {
 		body = "Ret " + paren(v.s)
 	}
 	out.sb.WriteString(header(p, st.Cond, fmt.Sprintf("condition of if statement #%d of func %s", d.IfN, d.Func)))
-	fmt.Fprintf(&out.sb, "Definition %s%s : %s :=\n  %s.\n\n", f.gen, f.binders(scope(f.params)), f.resType(), body)
+	fmt.Fprintf(out.sb, "Definition %s%s : %s :=\n  %s.\n\n", f.gen, f.binders(scope(f.params)), f.resType(), body)
 }
 
 func (p *pkgInfo) lookup(name string) types.Object {
@@ -331,7 +374,7 @@ func emitConst(out *output, p *pkgInfo, d *directive) {
 	vs := p.declNode(c)
 	_, file, l0, _ := p.text(vs)
 	// an iota constant's text does not determine its value: the value itself is the generated fact
-	fmt.Fprintf(&out.sb, "(* const %s — %s:%d *)\nDefinition gen_%s : %s := %s.\n\n", d.Func, file, l0, d.Name, ct, f.constant(c.Val(), ct, vs))
+	fmt.Fprintf(out.sb, "(* const %s — %s:%d *)\nDefinition gen_%s : %s := %s.\n\n", d.Func, file, l0, d.Name, ct, f.constant(c.Val(), ct, vs))
 }
 
 // emitVar translates `var x = [..]string{consts...}` after checking that x is never written,
@@ -419,6 +462,6 @@ func emitVar(out *output, p *pkgInfo, d *directive) {
 		})
 	}
 	out.sb.WriteString(header(p, vs, "var "+d.Func))
-	fmt.Fprintf(&out.sb, "Definition gen_%s : %s :=\n  [%s].\n\n", d.Name, ct, strings.Join(elems, "; "))
+	fmt.Fprintf(out.sb, "Definition gen_%s : %s :=\n  [%s].\n\n", d.Name, ct, strings.Join(elems, "; "))
 	out.vars[v] = "gen_" + d.Name
 }
